@@ -4582,8 +4582,8 @@ gj0BCallNotImpl(Foam foam)
 
 struct gjBVal_info gjBValNotImpl = { 0, GJ_NotImpl };
 struct gjBVal_info gjBValInfoTable[] = {
-	{FOAM_BVal_BoolFalse, GJ_Keyword,  0, "true"},
-	{FOAM_BVal_BoolTrue,  GJ_Keyword,  0, "false"},
+	{FOAM_BVal_BoolFalse, GJ_Keyword,  0, "false"},
+	{FOAM_BVal_BoolTrue,  GJ_Keyword,  0, "true"},
 
 	{FOAM_BVal_BoolNot, GJ_Op, JCO_OP_Not },
 	{FOAM_BVal_BoolAnd, GJ_Op, JCO_OP_And },
